@@ -216,6 +216,16 @@ def sameNode (x y : DNode) (rootResize : Bool) : Bool :=
 def sameDump (old new : List DNode) : Bool :=
   old.length == new.length && old.all (fun x => match findNode new x.path with | some y => sameNode x y true | none => false)
 
+/-- `y` extends `x` (`advance_extends_subtree`): counts do not go down, particles are only appended -/
+def extendsNode (x y : DNode) : Bool :=
+  decide (x.n ≤ y.n) && decide (x.acts.length ≤ y.acts.length) &&
+  (List.range x.acts.length).all (fun a => decide ((x.acts.getD a (0, 0)).1 ≤ (y.acts.getD a (0, 0)).1)) &&
+  x.parts.isPrefixOf y.parts
+
+/-- every node of `old` is still in `new`, extended -/
+def extendsDump (old new : List DNode) : Bool :=
+  old.all (fun x => match findNode new x.path with | some y => extendsNode x y | none => false)
+
 structure St where
   t : Tree
   prev : List DNode
@@ -253,6 +263,9 @@ def runCall (g : Gm) (m : Mdl) (bs : Nat) (st : St) (c : CallRec) : St :=
        else if c.dump.length != 1 || !(c.dump.all (fun n => n.n == 0 && n.acts.all (fun a => a.1 == 0 && a.2 == 0))) then
           fails ++ [s!"{cn} advance_restart_not_clean after ({c.a},{c.k}) nodes={c.dump.length}"] else fails)
     else fails
+  -- promotion followed by simulations: the promoted subtree is still there, only extended (`advance_extends_subtree`)
+  let fails := if hit && c.iters != 0 && !(extendsDump (subtreeOf st.prev (c.a, c.k)) c.dump) then
+      fails ++ [s!"{cn} advance_lost_subtree after ({c.a},{c.k}) iters={c.iters}: a node of the promoted subtree is missing or shrank"] else fails
   -- ---------- trace validation against the transition system
   let diffs := st.diffs
   let (t', diffs, fails) := match call m st.t op c.log with
@@ -450,6 +463,15 @@ def runRCall (g : Gm) (m : Mdl) (kk : Nat) (st : RSt) (c : RCallRec) : RSt :=
           else fails ++ [s!"{cn} advance_not_subtree after ({c.a},{c.k})"])
        else if c.dump.length != 1 || !(c.dump.all (fun n => n.n == 0 && n.acts.all (fun a => a.1 == 0 && a.2 == 0))) then
           fails ++ [s!"{cn} advance_restart_not_clean after ({c.a},{c.k}) nodes={c.dump.length}"] else fails)
+    else fails
+  let fails := if hit && c.iters != 0 then
+      (let sub := st.prev.filterMap (fun n => match n.path with | k' :: r => if k' == (c.a, c.k) then some { n with path := r } else none | [] => none)
+       if sub.all (fun x => match findRNode c.dump x.path with
+            | some y => decide (x.n ≤ y.n) && decide (x.acts.length ≤ y.acts.length) &&
+                        (List.range x.acts.length).all (fun a => decide ((x.acts.getD a (0, 0)).1 ≤ (y.acts.getD a (0, 0)).1)) &&
+                        (x.path == [] || x.tb.all (fun sc => y.tb.any (fun tc => tc.1 == sc.1 && decide (sc.2 ≤ tc.2))))
+            | none => false) then fails
+       else fails ++ [s!"{cn} advance_lost_subtree after ({c.a},{c.k}) iters={c.iters}: a node of the promoted subtree is missing or shrank"])
     else fails
   let diffs := st.diffs
   let (t', diffs, fails) := match R.rcall m kk st.t op c.log with
